@@ -135,6 +135,18 @@ pub fn check_ring(run: &mut Run, c: MCell, segments: Option<i32>, closed: bool, 
                     run.violation("C11.default_options", case(), format!("cell_to_boundary(c, None) ({} points) differs from the explicit default options ({} points)", r2.len(), ring.len()));
                 }
                 run.count("rings_with_no_options_at_all");
+                // and the same for an accepted non-canonical spelling of the cell (one stray bit below the marker): the default
+                // subdivision is a function of the cell, not of how its id is written
+                let mut arng = crate::rng::Rng::stream(id, "C11.alias", 0);
+                if let Some(w) = stray_alias(&mut arng, c) {
+                    if let Ok(r3) = flatten(guard(|| a5::cell_to_boundary(w, None))) {
+                        run.count("rings_with_no_options_for_an_alias_spelling");
+                        let same = r3.len() == r2.len() && r3.iter().zip(r2.iter()).all(|(a, b)| a.longitude().to_bits() == b.longitude().to_bits() && a.latitude().to_bits() == b.latitude().to_bits());
+                        if !same {
+                            run.violation("C11.alias_default", json!({"cell": hu(id), "alias": hu(w), "res": c.res}), format!("cell_to_boundary({}, None) ({} points) differs from the ring of the cell it is a spelling of, {} ({} points)", hu(w), r3.len(), hu(id), r2.len()));
+                        }
+                    }
+                }
             }
             Err(e) => run.violation("C11.ok", case(), format!("cell_to_boundary(c, None) failed: {e}")),
         }
